@@ -144,6 +144,8 @@ used already and asked for triggers that random testing is unlikely to hit):
 * round 8 (35 admitted changes for 14 properties, 5 missed at first; one rejected): see DESIGN section 13 "Round 8".
 * round 9 (22 admitted changes for 8 properties, 10 missed at first; two more rejected): see DESIGN section 13 "Round 9".
 * round 10 (34 admitted changes for 12 properties, 10 missed at first; two more rejected, one re-filed): see DESIGN section 13 "Round 10".
+* round 11 (54 admitted changes for 19 properties, 18 missed at first; three more rejected, three re-filed; one round-9
+  rejection re-admitted): see DESIGN section 13 "Round 11".
 
 | id | change | needs to manifest | detected by its property's check | also caught by |
 |----|--------|-------------------|----------------------------------|----------------|
